@@ -565,7 +565,31 @@ def run(tier, seed):
     viol.extend(vf)
     nq, vq = run_sequence_cases()
     viol.extend(vq)
-    total = n + na + nd + nf + nq
+    # the same forwarding with the library's DEBUG logging switched on (what `boto3.set_stream_logger('')`
+    # does): what is logged must not change what is sent
+    import logging
+    nl = 0
+    sdl = ScratchDir('c15l')
+    prev_disable = logging.root.manager.disable
+    lg = logging.getLogger('s3transfer')
+    prev_level, nh = lg.level, logging.NullHandler()
+    try:
+        logging.disable(logging.NOTSET)
+        lg.setLevel(logging.DEBUG)
+        lg.addHandler(nh)
+        for kind, modes in (('upload', ('single', 'multipart')), ('download', ('single', 'ranged')), ('copy', ('single', 'multipart')), ('delete', ('single',))):
+            E = {a: marker(a) for a in allowed[kind] if a not in FULL_OBJECT and a not in ('ChecksumAlgorithm', 'ChecksumType', 'MpuObjectSize')}
+            for mode in modes:
+                calls, oc, exc, anomalies = run_manager_case(kind, mode, E, 'when_required', False, sdl)
+                nl += 1
+                for sig, msg in judge(kind, mode, E, 'when_required', False, calls, oc, exc, anomalies, fe='manager-debuglog'):
+                    viol.append({'sig': sig, 'msg': msg + f' [DEBUG logging enabled; kind={kind} mode={mode}]', 'replay': None})
+    finally:
+        lg.removeHandler(nh)
+        lg.setLevel(prev_level)
+        logging.disable(prev_disable)
+        sdl.cleanup()
+    total = n + na + nd + nf + nq + nl
     cov = {'evaluations': total, 'distinct_nontrivial': len(sigs) + len(sf) + na,
            'rule': 'one transfer per (front-end, method, mode, size known?, request_checksum_calculation, extra_args) case, exhaustive over the case '
                    'list; the kwargs of every call are validated by botocore\'s ParamValidator against the operation\'s input shape and compared with the '
@@ -573,7 +597,7 @@ def run(tier, seed):
            'samples': samples, 'exhaustive': True, 'states': total, 'transitions': total,
            'traces_validated_against_impl': total,
            'parts': {'manager cases': n, 'abort-cleanup cases': na, 'disallowed-name cases': nd, 'legacy + process-pool cases': nf,
-                     'two-transfer histories sharing one extra_args dict': nq}}
+                     'two-transfer histories sharing one extra_args dict': nq, 'all arguments with DEBUG logging on': nl}}
     return {'coverage': cov, 'violations': viol, 'level': 'exploration',
             'assumptions': ['expectation table written from the statement + installed botocore S3 model',
                             'at most one full-object checksum per case',
